@@ -153,3 +153,63 @@ package raft
 //@   ensures [failure-asks-for-rollback] err != nil ==> res == nil && rpcN == old(rpcN)
 //@   ensures [pin-object-untouched] forall p *api.Pin :: *p == old(*p)
 //@   modifies pinset, rpcN, rpcLastSvc, rpcLastMethod, rpcLastArg, heap(LogOp)
+
+// ---- C14: backup rotation on a ghost file system ----
+// fs: the names that exist; fsContent: what each of them holds
+//@ ghost var fs set[string]
+//@ ghost var fsContent map[string]int
+//@ spec func notExist(e error) bool = uf("isNotExist", "bool", e)
+//@ spec func bname(d *dataBackupHelper, i int) string = uf("backupName", "string", d.baseDir, d.folderName, i)
+//@ spec func dataFolder(d *dataBackupHelper) string = uf("join2", "string", d.baseDir, d.folderName)
+// the backup names are pairwise different and different from the data folder (fmt.Sprintf("%s.old.%d") is injective in i)
+//@ spec func namesDistinct(d *dataBackupHelper) bool = (forall i int, j int :: i != j ==> bname(d, i) != bname(d, j)) && (forall i int :: bname(d, i) != dataFolder(d))
+
+//@ extern os.Stat(name)
+//@   ensures notExist(err) <==> !in(name, fs)
+//@ extern os.IsNotExist(err)
+//@   ensures res == notExist(err)
+//@ extern os.MkdirAll(path, perm)
+//@   modifies nothing
+//@ extern os.RemoveAll(path)
+//@   ensures !in(path, fs)
+//@   ensures forall n string :: n != path ==> (in(n, fs) <==> in(n, old(fs))) && fsContent[n] == old(fsContent)[n]
+//@   modifies fs, fsContent
+//@ extern os.Rename(oldpath, newpath)
+//@   ensures err == nil ==> !in(oldpath, fs) && in(newpath, fs) && fsContent[newpath] == old(fsContent)[oldpath]
+//@   ensures err == nil ==> forall n string :: n != oldpath && n != newpath ==> (in(n, fs) <==> in(n, old(fs))) && fsContent[n] == old(fsContent)[n]
+//@   ensures err != nil ==> fs == old(fs) && fsContent == old(fsContent)
+//@   modifies fs, fsContent
+//@ extern filepath.Join(elem)
+//@   ensures len(elem) == 2 ==> res == uf("join2", "string", elem[0], elem[1])
+
+//@ func (dbh *dataBackupHelper) makeName
+//@   opts trusted
+//@   ensures res == bname(dbh, i)
+//@   modifies nothing
+
+// the existing backups old.0 .. old.(n-1), n = first gap (or keep)
+//@ func (dbh *dataBackupHelper) listBackups
+//@   property C14
+//@   ensures !isnil(res) && (dbh.keep >= 0 ==> len(res) <= dbh.keep)
+//@   ensures forall i int :: 0 <= i && i < len(res) ==> res[i] == bname(dbh, i) && in(res[i], fs)
+//@   ensures len(res) < dbh.keep ==> !in(bname(dbh, len(res)), fs)
+//@   loop 1 (for i < dbh.keep)
+//@     invariant 0 <= i && (dbh.keep >= 0 ==> i <= dbh.keep) && len(backups) == i && !isnil(backups) && (forall j int :: 0 <= j && j < i ==> backups[j] == bname(dbh, j) && in(backups[j], fs))
+//@   modifies nothing
+
+// "keeps it recoverable as the newest of at most N rotated backups, older backups shifting by one and only the oldest being discarded"
+//@ func (dbh *dataBackupHelper) makeBackup
+//@   property C14
+//@   requires dbh.keep >= 1 && namesDistinct(dbh)
+//@   ensures [nothing-to-back-up] !in(dataFolder(dbh), old(fs)) ==> err == nil && fs == old(fs) && fsContent == old(fsContent)
+//@   ensures [newest-is-the-data] in(dataFolder(dbh), old(fs)) && err == nil ==> !in(dataFolder(dbh), fs) && in(bname(dbh, 0), fs) && fsContent[bname(dbh, 0)] == old(fsContent)[dataFolder(dbh)]
+//@   ensures [older-shift-by-one] in(dataFolder(dbh), old(fs)) && err == nil ==> forall i int :: 1 <= i && i < dbh.keep && (forall j int :: 0 <= j && j < i ==> in(bname(dbh, j), old(fs))) ==> in(bname(dbh, i), fs) && fsContent[bname(dbh, i)] == old(fsContent)[bname(dbh, i - 1)]
+//@   ensures [unrelated-names-untouched] forall s string :: s != dataFolder(dbh) && (forall i int :: 0 <= i && i < dbh.keep ==> s != bname(dbh, i)) ==> (in(s, fs) <==> in(s, old(fs))) && fsContent[s] == old(fsContent)[s]
+//@   loop 1 (for i > 0)
+//@     invariant 0 <= i && i < len(backups) && len(backups) <= dbh.keep && (forall j int :: 0 <= j && j < len(backups) ==> backups[j] == bname(dbh, j))
+//@     invariant !in(backups[i], fs) && in(dataFolder(dbh), fs) && fsContent[dataFolder(dbh)] == old(fsContent)[dataFolder(dbh)]
+//@     invariant forall j int :: 0 <= j && j < i ==> in(backups[j], fs) && fsContent[backups[j]] == old(fsContent)[backups[j]] && in(backups[j], old(fs))
+//@     invariant forall j int :: i < j && j < len(backups) ==> in(backups[j], fs) && fsContent[backups[j]] == old(fsContent)[backups[j-1]]
+//@     invariant len(backups) < dbh.keep ==> !in(bname(dbh, len(backups) - 1), old(fs))
+//@     invariant forall s string :: s != dataFolder(dbh) && (forall k int :: 0 <= k && k < dbh.keep ==> s != bname(dbh, k)) ==> (in(s, fs) <==> in(s, old(fs))) && fsContent[s] == old(fsContent)[s]
+//@   modifies fs, fsContent
